@@ -6,3 +6,4 @@ from . import coord_payload  # noqa: F401
 from . import fiber  # noqa: F401
 from . import iterators  # noqa: F401
 from . import rank  # noqa: F401
+from . import split  # noqa: F401
